@@ -76,7 +76,7 @@ Definition sv_extends (s : st) (sv' : sview) (e : option einfo) : Prop :=
 
 Lemma einfo_ext_old s sv' e h : sv_extends s sv' e -> known s h -> einfo_of (set_sv sv' s) h = einfo_of s h.
 Proof.
-  unfold sv_extends, known, next_handle, einfo_of. simpl. intros E L. rewrite E.
+  intros E L. apply known_lt in L. unfold sv_extends, next_handle, einfo_of in *. simpl. rewrite E.
   rewrite app_nth1; [reflexivity | exact L].
 Qed.
 Lemma einfo_ext_new s sv' e : sv_extends s sv' e -> einfo_of (set_sv sv' s) (next_handle s) = e.
@@ -90,69 +90,84 @@ Lemma next_ext s sv' e : sv_extends s sv' e -> next_handle (set_sv sv' s) = S (n
 Proof. unfold sv_extends, next_handle. simpl. intro E. rewrite E, app_length. simpl. lia. Qed.
 
 Lemma einfo_known s h e : einfo_of s h = Some e -> known s h.
-Proof.
-  unfold einfo_of, known, next_handle. intro H.
-  destruct (Nat.lt_ge_cases h (length (sv_elems (sv s)))) as [L|G]; [exact L|].
-  rewrite nth_overflow in H; [discriminate | exact G].
-Qed.
+Proof. intro H. exists e. exact H. Qed.
 
 Definition einfo_flag_ok (e : option einfo) : Prop :=
   forall e', e = Some e' -> e_tmpl e' = ename_eqb (e_ns e', e_local e') (ns_html, nm "template").
 
-Lemma known_handles_in s h : known_ok s -> In h (handles_of s) -> known s h.
+Lemma known_handles_in s h : known_ok s -> In h (state_handles s) -> known s h.
 Proof. intros [A _] H. rewrite Forall_forall in A. apply A. exact H. Qed.
 
-Lemma in_handles_stack s h : In h (open_elems s) -> In h (handles_of s).
-Proof. intro H. unfold handles_of. right. apply in_or_app. left. exact H. Qed.
-Lemma in_handles_af s h t : In (FElem h t) (active_formatting s) -> In h (handles_of s).
+Lemma in_handles_stack s h : In h (open_elems s) -> In h (state_handles s).
+Proof. intro H. unfold state_handles. apply in_or_app. left. exact H. Qed.
+Lemma in_handles_af s h t : In (FElem h t) (active_formatting s) -> In h (state_handles s).
 Proof.
-  intro H. unfold handles_of. right. apply in_or_app. right. apply in_or_app. left.
+  intro H. unfold state_handles. apply in_or_app. right. apply in_or_app. left.
   unfold af_handles. apply in_flat_map. exists (FElem h t). split; [exact H | left; reflexivity].
 Qed.
-Lemma in_handles_head s h : head_elem s = Some h -> In h (handles_of s).
-Proof. intro H. unfold handles_of. right. do 2 (apply in_or_app; right). apply in_or_app. left. rewrite H. left; reflexivity. Qed.
-Lemma in_handles_form s h : form_elem s = Some h -> In h (handles_of s).
-Proof. intro H. unfold handles_of. right. do 3 (apply in_or_app; right). apply in_or_app. left. rewrite H. left; reflexivity. Qed.
-Lemma in_handles_ctx s h : context_elem s = Some h -> In h (handles_of s).
-Proof. intro H. unfold handles_of. right. do 4 (apply in_or_app; right). rewrite H. left; reflexivity. Qed.
+Lemma in_handles_head s h : head_elem s = Some h -> In h (state_handles s).
+Proof. intro H. unfold state_handles. do 2 (apply in_or_app; right). apply in_or_app. left. rewrite H. left; reflexivity. Qed.
+Lemma in_handles_form s h : form_elem s = Some h -> In h (state_handles s).
+Proof. intro H. unfold state_handles. do 3 (apply in_or_app; right). apply in_or_app. left. rewrite H. left; reflexivity. Qed.
+Lemma in_handles_ctx s h : context_elem s = Some h -> In h (state_handles s).
+Proof. intro H. unfold state_handles. do 4 (apply in_or_app; right). rewrite H. left; reflexivity. Qed.
 
-Lemma TInv_sv_ext s sv' e : TInv s -> sv_extends s sv' e -> einfo_flag_ok e -> TInv (set_sv sv' s).
+(* a creating operation: the event and the extension of the sink view go together *)
+Lemma TInv_sv_ext s sv' e op :
+  TInv s -> sv_extends s sv' e -> einfo_flag_ok e ->
+  significant (EvOp op) = true -> ev_sv (EvOp op) (sv s) = sv' -> op_okb (sv s) op = true ->
+  TInv (set_sv sv' (set_out (EvOp op :: out s) s)).
 Proof.
-  intros [I1 I2 I3 I4 I5 I6 I7 I8 I9 I10 I11] E F.
-  assert (EN : forall h, In h (handles_of s) -> ename_of (set_sv sv' s) h = ename_of s h).
-  { intros h H. apply (ename_ext_old _ _ _ _ E). apply known_handles_in; assumption. }
+  intros [I1 I2 I3 I4 I5 I6 I7 I8 I9 I10 I11 I12 I13] E F Sg Esv Ok.
+  set (s' := set_sv sv' (set_out (EvOp op :: out s) s)).
+  assert (E' : sv_extends s (sv s') e) by exact E.
+  assert (EO : forall h, known s h -> einfo_of s' h = einfo_of s h).
+  { intros h K. exact (einfo_ext_old s sv' e h E K). }
+  assert (EN : forall h, In h (state_handles s) -> ename_of s' h = ename_of s h).
+  { intros h H. unfold ename_of. rewrite EO; [reflexivity | apply known_handles_in; assumption]. }
+  assert (NX : next_handle s' = S (next_handle s)) by exact (next_ext s sv' e E).
   constructor.
   - intros h e0 H.
     destruct (Nat.lt_ge_cases h (next_handle s)) as [L|G].
-    + rewrite (einfo_ext_old _ _ _ _ E L) in H. apply I1 in H. exact H.
+    + assert (X : einfo_of s' h = einfo_of s h).
+      { unfold einfo_of, s', next_handle in *. simpl. rewrite E. rewrite app_nth1; [reflexivity | exact L]. }
+      rewrite X in H. apply I1 in H. exact H.
     + destruct (Nat.eq_dec h (next_handle s)) as [->|N].
-      * rewrite (einfo_ext_new _ _ _ E) in H. apply F. exact H.
-      * apply einfo_known in H. unfold known in H. rewrite (next_ext _ _ _ E) in H. lia.
+      * assert (X : einfo_of s' (next_handle s) = e) by exact (einfo_ext_new s sv' e E).
+        rewrite X in H. apply F. exact H.
+      * assert (K : known s' h) by (exists e0; exact H). apply known_lt in K. rewrite NX in K. lia.
   - destruct I2 as [A B]. split.
-    + change (handles_of (set_sv sv' s)) with (handles_of s).
-      eapply Forall_impl; [|exact A]. unfold known. intros a L. rewrite (next_ext _ _ _ E). lia.
-    + rewrite (next_ext _ _ _ E). lia.
-  - unfold root_ok in *. simpl. destruct (early_mode (mode s)); [exact I3|].
+    + change (state_handles s') with (state_handles s).
+      eapply Forall_impl; [|exact A]. intros a [ea Ha]. exists ea. rewrite EO; [exact Ha | exists ea; exact Ha].
+    + rewrite NX. lia.
+  - unfold root_ok in *. change (mode s') with (mode s). change (open_elems s') with (open_elems s).
+    destruct (early_mode (mode s)); [exact I3|].
     destruct I3 as (r & rest & Er & N). exists r, rest. split; [exact Er|].
     rewrite EN; [exact N|]. apply in_handles_stack. rewrite Er. left; reflexivity.
   - exact I4.
   - exact I5.
-  - unfold af_ok in *. simpl. intros h t H. rewrite EN; [apply I6; exact H | eapply in_handles_af; exact H].
-  - unfold tm_ok, tcount in *. change (open_elems (set_sv sv' s)) with (open_elems s).
-    change (context_elem (set_sv sv' s)) with (context_elem s).
-    change (template_modes (set_sv sv' s)) with (template_modes s).
-    replace (filter (is_template (set_sv sv' s)) (open_elems s)) with (filter (is_template s) (open_elems s)).
+  - unfold af_ok in *. change (active_formatting s') with (active_formatting s).
+    intros h t H. rewrite EN; [apply I6; exact H | eapply in_handles_af; exact H].
+  - unfold tm_ok, tcount in *. change (open_elems s') with (open_elems s).
+    change (context_elem s') with (context_elem s).
+    change (template_modes s') with (template_modes s).
+    replace (filter (is_template s') (open_elems s)) with (filter (is_template s) (open_elems s)).
     2:{ apply filter_ext_in. intros a Ha. unfold is_template, html_elem_named_b.
         rewrite EN; [reflexivity | apply in_handles_stack; exact Ha]. }
     destruct (context_elem s) as [c|] eqn:Ec; [|exact I7].
     unfold is_template at 2, html_elem_named_b. rewrite EN; [exact I7 | apply in_handles_ctx; exact Ec].
   - exact I8.
-  - unfold headstack_ok in *. simpl. intros (h & A & B). apply I9. exists h. split; [exact A|].
+  - unfold headstack_ok in *. change (open_elems s') with (open_elems s). change (head_elem s') with (head_elem s).
+    intros (h & A & B). apply I9. exists h. split; [exact A|].
     rewrite <- EN; [exact B | apply in_handles_stack; exact A].
-  - destruct I10 as [A B]. split; simpl.
-    + intros h H. rewrite EN; [apply A; exact H | apply in_handles_head; exact H].
-    + intros f H. rewrite EN; [apply B; exact H | apply in_handles_form; exact H].
+  - destruct I10 as [A B]. split.
+    + change (head_elem s') with (head_elem s). intros h H. rewrite EN; [apply A; exact H | apply in_handles_head; exact H].
+    + change (form_elem s') with (form_elem s). intros f H. rewrite EN; [apply B; exact H | apply in_handles_form; exact H].
   - exact I11.
+  - unfold sync_ok in *. change (out s') with (EvOp op :: out s). change (sv s') with sv'.
+    rewrite (sig_cons_sig _ _ Sg). cbn [tsv]. rewrite I12. exact Esv.
+  - unfold trace_ok in *. change (out s') with (EvOp op :: out s). rewrite (sig_cons_sig _ _ Sg). cbn [trace_okb ev_okb].
+    unfold sync_ok in I12. rewrite I12, Ok, I13. reflexivity.
 Qed.
 
 (* ---------- changing the stack of open elements ---------- *)
@@ -171,7 +186,7 @@ Proof.
   intros [I1 I2 I3 I4 I5 I6 I7 I8 I9 I10 I11] Em R K T H.
   constructor; try assumption.
   - destruct I2 as [A B]. split; [|exact B].
-    unfold handles_of in *. simpl. inversion A as [|x l A0 A1]; subst. constructor; [exact A0|].
+    unfold state_handles in *. simpl. pose proof A as A1.
     apply Forall_app in A1. destruct A1 as [_ A2]. apply Forall_app. split; [exact K | exact A2].
   - unfold root_ok. simpl. rewrite Em. exact R.
 Qed.
@@ -185,7 +200,7 @@ Proof.
   apply TInv_set_stack; try assumption.
   - unfold root_ok in I3. rewrite Em in I3. destruct I3 as (r & rest & E & N). rewrite E.
     destruct k; [lia|]. simpl. exists r, (firstn k rest). split; [reflexivity | exact N].
-  - destruct I2 as [A _]. unfold handles_of in A. inversion A as [|x l _ A1]; subst.
+  - destruct I2 as [A _]. unfold state_handles in A. pose proof A as A1.
     apply Forall_app in A1. destruct A1 as [A1 _]. rewrite Forall_forall in *. intros h H. apply A1.
     eapply In_firstn; exact H.
   - unfold tm_ok, tcount in I7. unfold tcount_of. pose proof (filter_length_firstn (is_template s) k (open_elems s)). lia.
@@ -201,7 +216,7 @@ Proof.
   apply TInv_set_stack; try assumption.
   - unfold root_ok in I3. rewrite Em in I3. destruct I3 as (r & rest & E & N). rewrite E.
     destruct k; [lia|]. unfold vremove. simpl. exists r, (firstn k rest ++ skipn (S k) rest). split; [reflexivity | exact N].
-  - destruct I2 as [A _]. unfold handles_of in A. inversion A as [|x l _ A1]; subst.
+  - destruct I2 as [A _]. unfold state_handles in A. pose proof A as A1.
     apply Forall_app in A1. destruct A1 as [A1 _]. rewrite Forall_forall in *. intros h H. apply A1.
     eapply In_vremove; exact H.
   - unfold tm_ok, tcount in I7. unfold tcount_of. pose proof (filter_length_vremove (is_template s) k (open_elems s)). lia.
@@ -218,7 +233,7 @@ Proof.
   apply TInv_set_stack; try assumption.
   - unfold root_ok in I3. rewrite Em in I3. destruct I3 as (r & rest & E & N). rewrite E.
     unfold vpush. simpl. exists r, (rest ++ [h]). split; [reflexivity | exact N].
-  - destruct I2 as [A _]. unfold handles_of in A. inversion A as [|x l _ A1]; subst.
+  - destruct I2 as [A _]. unfold state_handles in A. pose proof A as A1.
     apply Forall_app in A1. destruct A1 as [A1 _]. unfold vpush. apply Forall_app. split; [exact A1|].
     constructor; [exact K | constructor].
   - unfold tm_ok, tcount in I7. unfold tcount_of, vpush. rewrite filter_length_app. simpl.
